@@ -396,6 +396,30 @@ def tilde_sweep(ctx, root):
             ctx.count('tilde_strings')
 
 
+def group_sequence_sweep(ctx, root):
+    """Two or three extended groups in sequence and nested, every combination of kinds (the bookkeeping of pending `!(` groups
+    across sibling and nested lists)."""
+    shapes = ['{a}(a){b}({c}(b))', '{a}(a){b}(x|{c}(b))c', '{a}({b}(a)){c}(b)', '{a}(a){b}(b){c}(c)', '{a}({b}({c}(a)))', '{a}(a|{b}(b)|{c}(c))d',
+              'x/{a}(a){b}({c}(b))/y', '{a}(a){b}({c}(b)', '{a}({b}(a){c}(b))', '{a}(a)/{b}({c}(b))']
+    fsets = [('EXTMATCH',), ('EXTMATCH', 'GLOBSTAR', 'DOTMATCH'), ('EXTMATCH', 'NEGATE'), ('EXTMATCH', 'MATCHBASE', 'NODIR')]
+    idx = 0
+    for a in '@!*+?':
+        for b in '@!*+?':
+            for c in '@!*+?':
+                for sh in shapes:
+                    idx += 1
+                    if ctx.quick and '!' not in (a, b, c) and (idx * 2654435761) % 100 >= 25:
+                        continue
+                    if not ctx.mine(idx):
+                        continue
+                    text = sh.replace('{a}', a).replace('{b}', b).replace('{c}', c)
+                    fnames = fsets[idx % len(fsets)]
+                    with ctx.case(label=(text, fnames)):
+                        exercise(ctx, text, fnames, root, idx % 4 == 0)
+                    ctx.mark_nontrivial((text, fnames))
+                    ctx.count('group_sequence_strings')
+
+
 def strings(alpha, n):
     for tup in itertools.product(alpha, repeat=n):
         yield ''.join(tup)
@@ -428,6 +452,7 @@ def run(ctx):
         bracket_sweep(ctx, 5 if quick else 6)
         win_prefix_sweep(ctx, root)
         group_shape_sweep(ctx, root)
+        group_sequence_sweep(ctx, root)
         rawchars_value_sweep(ctx, root)
         tilde_sweep(ctx, root)
 
